@@ -13,13 +13,15 @@ package main
 //	  top  = O | S : the context handed to Db.Update is ordinary | system
 //	  mode = a | k : the body aborts at the first error | ignores every error except a refused create
 //	op = fields joined by ':' ; ctx = o | s (s: the operation uses ctx.GetSystemContext())
-//	  c:ctx:id:flag:name            Create  &ent{IsSystem: flag, Name: name}
-//	  u:ctx:id:flag:name:checker    Update  checker = n (nil) | comma list of field names (may be empty: "-")
+//	  c:ctx:id:flag:name:mig:cAt:uAt:tag          Create  &ent{IsSystem: flag, Name: name, Migrate: mig, CreatedAt: cAt, UpdatedAt: uAt, Tags: {"k": tag}}
+//	  u:ctx:id:flag:name:checker:mig:cAt:uAt:tag  Update  checker = n (nil) | comma list of field names (may be empty: "-")
+//	      mig = t|f; cAt, uAt = z (zero time) | unix seconds; tag = wire string | ~ (nil map)
 //	  d:ctx:id                      DeleteById
 //	  r:id                          FindById inside the transaction
 //
 // Output per transaction: `<op results joined by ';'>|<view of the uncommitted state after the aborting failure>|<view after the tx>`
-// view = for every pool id `<id>=<exists>/<IsSystemEntity>/<name>/<raw isSystem key: - absent, t, f, ?>;`
+// view = for every pool id `<id>=<exists>/<IsSystemEntity>/<name>/<tag k or ~>/<createdAt>/<updatedAt>/<raw isSystem key: - absent, t, f, ?>;`
+// a timestamp is printed as z (zero time), its unix seconds when it is one of the values the generator hands out, else `now`
 import (
 	"bufio"
 	"context"
@@ -27,7 +29,9 @@ import (
 	"fmt"
 	"os"
 	"path/filepath"
+	"strconv"
 	"strings"
+	"time"
 
 	"github.com/openziti/foundation/v2/errorz"
 	"github.com/openziti/storage/ast"
@@ -161,6 +165,53 @@ func c16B(b bool) string {
 	return "f"
 }
 
+var c16Stamps = []string{"z", "1000", "2000", "3000"}
+
+func c16Time(tok string) time.Time {
+	if tok == "z" {
+		return time.Time{}
+	}
+	n, err := strconv.ParseInt(tok, 10, 64)
+	if err != nil {
+		panic(err)
+	}
+	return time.Unix(n, 0).UTC()
+}
+
+func c16ShowTime(t time.Time) string {
+	if t.IsZero() {
+		return "z"
+	}
+	if t.Nanosecond() == 0 {
+		for _, tok := range c16Stamps[1:] {
+			if strconv.FormatInt(t.Unix(), 10) == tok {
+				return tok
+			}
+		}
+	}
+	return "now"
+}
+
+// the whole in-memory entity: every field of BaseExtEntity and the name
+func c16Entity(id, flag, name, mig, cAt, uAt, tag string) *c16Ent {
+	ent := &c16Ent{BaseExtEntity: boltz.BaseExtEntity{Id: fromWire(id), IsSystem: flag == "t", Migrate: mig == "t",
+		CreatedAt: c16Time(cAt), UpdatedAt: c16Time(uAt)}, Name: fromWire(name)}
+	if tag != "~" {
+		ent.Tags = map[string]interface{}{"k": fromWire(tag)}
+	}
+	return ent
+}
+
+func c16Tag(ent *c16Ent) string {
+	if v, ok := ent.Tags["k"]; ok {
+		if sv, ok := v.(string); ok {
+			return toWire(sv)
+		}
+		return "?"
+	}
+	return "~"
+}
+
 func (e *c16Env) op(top boltz.MutateContext, op string) string {
 	f := strings.Split(op, ":")
 	ctxOf := func(k string) boltz.MutateContext {
@@ -171,10 +222,10 @@ func (e *c16Env) op(top boltz.MutateContext, op string) string {
 	}
 	switch f[0] {
 	case "c":
-		ent := &c16Ent{BaseExtEntity: boltz.BaseExtEntity{Id: fromWire(f[2]), IsSystem: f[3] == "t"}, Name: fromWire(f[4])}
+		ent := c16Entity(f[2], f[3], f[4], f[5], f[6], f[7], f[8])
 		return c16Err(e.store.Create(ctxOf(f[1]), ent))
 	case "u":
-		ent := &c16Ent{BaseExtEntity: boltz.BaseExtEntity{Id: fromWire(f[2]), IsSystem: f[3] == "t"}, Name: fromWire(f[4])}
+		ent := c16Entity(f[2], f[3], f[4], f[6], f[7], f[8], f[9])
 		var checker boltz.FieldChecker
 		if f[5] != "n" {
 			c := c16Checker{}
@@ -210,7 +261,7 @@ func (e *c16Env) view(tx *bbolt.Tx, pool []string) string {
 		case err != nil:
 			b.WriteString("error")
 		case !found:
-			b.WriteString("f///-")
+			b.WriteString("f//////-")
 		default:
 			raw := "-"
 			if bucket := e.store.GetEntityBucket(tx, []byte(id)); bucket != nil {
@@ -225,7 +276,8 @@ func (e *c16Env) view(tx *bbolt.Tx, pool []string) string {
 					}
 				}
 			}
-			b.WriteString("t/" + c16B(ent.IsSystemEntity()) + "/" + toWire(ent.Name) + "/" + raw)
+			b.WriteString("t/" + c16B(ent.IsSystemEntity()) + "/" + toWire(ent.Name) + "/" + c16Tag(ent) + "/" +
+				c16ShowTime(ent.CreatedAt) + "/" + c16ShowTime(ent.UpdatedAt) + "/" + raw)
 		}
 		b.WriteString(";")
 	}
@@ -301,7 +353,9 @@ func c16Exec(line string) string {
 
 var c16Ids = []string{"a", "b", "c", "sys", "a\x00", "é"}
 var c16Names = []string{"n0", "n1", "n2", "", "x y", "true"}
-var c16Checkers = []string{"n", "n", "name", "isSystem", "name,isSystem", "-", "tags", "name,tags", "isSystem,tags"}
+var c16Tags = []string{"~", "~", "t0", "t1", ""}
+var c16Checkers = []string{"n", "n", "name", "isSystem", "name,isSystem", "-", "tags", "name,tags", "isSystem,tags",
+	"createdAt,updatedAt,isSystem", "name,tags,isSystem,createdAt,updatedAt"}
 
 func c16Gen(tier string, seed uint64, out *bufio.Writer) {
 	r := newRng(seed)
@@ -315,28 +369,40 @@ func c16Gen(tier string, seed uint64, out *bufio.Writer) {
 	}
 }
 
-// every (creation context, creation flag) x (second operation kind, its context, its flag, checker) x
-// (same transaction | later transaction) x (abort | keep going), then a read-back transaction
+// rest of the in-memory entity: Migrate, CreatedAt, UpdatedAt, Tags
+func c16Rest(mig, cAt, uAt, tag string) string {
+	if tag != "~" {
+		tag = toWire(tag)
+	}
+	return mig + ":" + cAt + ":" + uAt + ":" + tag
+}
+
+// every (creation context, creation flag, creation Migrate) x (second operation kind, its context, its flag,
+// its Migrate, checker) x (same transaction | later transaction) x (abort | keep going), then a read-back
 func c16Exhaustive(out *bufio.Writer) {
 	id := toWire("a")
 	for _, cctx := range []string{"o", "s"} {
 		for _, cflag := range []string{"t", "f"} {
-			create := "c:" + cctx + ":" + id + ":" + cflag + ":" + toWire("n0")
-			var seconds []string
-			for _, octx := range []string{"o", "s"} {
-				seconds = append(seconds, "d:"+octx+":"+id)
-				seconds = append(seconds, "c:"+octx+":"+id+":t:"+toWire("n2"))
-				for _, uflag := range []string{"t", "f"} {
-					for _, ch := range []string{"n", "name", "isSystem", "name,isSystem", "-"} {
-						seconds = append(seconds, "u:"+octx+":"+id+":"+uflag+":"+toWire("n1")+":"+ch)
+			for _, cmig := range []string{"t", "f"} {
+				create := "c:" + cctx + ":" + id + ":" + cflag + ":" + toWire("n0") + ":" + c16Rest(cmig, "1000", "2000", "t0")
+				var seconds []string
+				for _, octx := range []string{"o", "s"} {
+					seconds = append(seconds, "d:"+octx+":"+id)
+					seconds = append(seconds, "c:"+octx+":"+id+":t:"+toWire("n2")+":"+c16Rest("t", "3000", "3000", "~"))
+					for _, uflag := range []string{"t", "f"} {
+						for _, umig := range []string{"t", "f"} {
+							for _, ch := range []string{"n", "name", "isSystem", "name,isSystem,tags,createdAt,updatedAt", "-"} {
+								seconds = append(seconds, "u:"+octx+":"+id+":"+uflag+":"+toWire("n1")+":"+ch+":"+c16Rest(umig, "3000", "z", "t1"))
+							}
+						}
 					}
 				}
-			}
-			for _, snd := range seconds {
-				for _, mode := range []string{"a", "k"} {
-					for _, top := range []string{"O", "S"} {
-						fmt.Fprintf(out, "H %s %s%s!%s;%s %s%s!r:%s\n", id, top, mode, create, snd, "O", "a", id)
-						fmt.Fprintf(out, "H %s %s%s!%s %s%s!%s;r:%s O%s!u:o:%s:f:%s:n\n", id, top, "a", create, top, mode, snd, id, mode, id, toWire("n2"))
+				for _, snd := range seconds {
+					for _, mode := range []string{"a", "k"} {
+						for _, top := range []string{"O", "S"} {
+							fmt.Fprintf(out, "H %s %s%s!%s;%s %s%s!r:%s\n", id, top, mode, create, snd, "O", "a", id)
+							fmt.Fprintf(out, "H %s %s%s!%s %s%s!%s;r:%s O%s!u:o:%s:f:%s:n:%s\n", id, top, "a", create, top, mode, snd, id, mode, id, toWire("n2"), c16Rest("f", "z", "z", "~"))
+						}
 					}
 				}
 			}
@@ -382,14 +448,19 @@ func c16History(r *rng, out *bufio.Writer) {
 			if r.chance(1, 2) {
 				flag = "t"
 			}
+			mig := "f"
+			if r.chance(2, 5) {
+				mig = "t"
+			}
+			rest := c16Rest(mig, pick(r, c16Stamps), pick(r, c16Stamps), pick(r, c16Tags))
 			name := toWire(pick(r, c16Names))
 			switch w := r.intn(100); {
 			case w < 35:
-				ops = append(ops, "c:"+ctx+":"+id+":"+flag+":"+name)
+				ops = append(ops, "c:"+ctx+":"+id+":"+flag+":"+name+":"+rest)
 			case w < 36:
-				ops = append(ops, "c:"+ctx+":-:"+flag+":"+name)
+				ops = append(ops, "c:"+ctx+":-:"+flag+":"+name+":"+rest)
 			case w < 70:
-				ops = append(ops, "u:"+ctx+":"+id+":"+flag+":"+name+":"+pick(r, c16Checkers))
+				ops = append(ops, "u:"+ctx+":"+id+":"+flag+":"+name+":"+pick(r, c16Checkers)+":"+rest)
 			case w < 90:
 				ops = append(ops, "d:"+ctx+":"+id)
 			default:
